@@ -22,7 +22,7 @@ TInstall(kind, A) == IsEvent("install") /\ A /\ Observed /\ Verdict(kind)
 TReset == /\ IsEvent("reset")
           /\ installed' = [r \in Routers |-> FALSE] /\ lc' = [r \in Routers |-> None]
           /\ res' = "ok" /\ step' = NoStep /\ h' = <<>>
-TSync  == IsEvent("sync") /\ (SyncOk(Ev.r, Ev.snap) \/ SyncReject(Ev.r) \/ (Ev.snap = lc[Ev.r] /\ SyncIgnored(Ev.r))) /\ Observed
+TSync  == IsEvent("sync") /\ (SyncOk(Ev.r, Ev.snap) \/ SyncReject(Ev.r) \/ SyncRefused(Ev.r) \/ (Ev.snap = lc[Ev.r] /\ SyncIgnored(Ev.r))) /\ Observed
 
 TraceInit == TLCSet(1, 1) /\ Init /\ l = 1
 TraceNext == \/ TReset
